@@ -234,7 +234,10 @@ func C05(r *eng.Run) {
 		// data payload or exactly between two fragments); the application
 		// retries. What follows is judged as before.
 		cfg.Retry, cfg.NoDiscard, cfg.PerFrame = true, true, false
-		p.Transient = TransientIn(r, s.Frames[:k])
+		var inPay bool
+		p.Transient, inPay = TransientIn(r, s.Frames[:k])
+		// ... and now and then the failing Read has taken some bytes already.
+		p.TransientData = inPay && r.T.Chance(sim.LFault, 1, 3)
 	}
 	if lastOnWire && p.EOFWithData && payLen == 0 {
 		r.Probe("offending_header_ends_with_eof_in_same_read")
@@ -532,7 +535,10 @@ func C07(r *eng.Run) {
 		// One temporary read error inside the payload of a data frame; the
 		// application reads every unit to its end and retries.
 		cfg.Retry, cfg.NoDiscard, cfg.PerFrame = true, true, false
-		p.Transient = TransientIn(r, s.Frames)
+		var inPay bool
+		p.Transient, inPay = TransientIn(r, s.Frames)
+		// ... and now and then the failing Read has taken some bytes already.
+		p.TransientData = inPay && r.T.Chance(sim.LFault, 1, 3)
 	}
 	if cfg.App == AppReader && !cfg.OnContRead && !cfg.Retry && r.T.Bool(sim.LCfg) {
 		c07Tolerant(r, cfg, s, p)
@@ -651,6 +657,12 @@ func c07Standalone(r *eng.Run) {
 		} else {
 			u.Reset(p)
 		}
+		if len(data) > 0 && r.T.Chance(sim.LFault, 1, 4) {
+			// One temporary error from the source somewhere, with or without
+			// bytes; the application reads on.
+			p.Transient = [][2]int{{r.T.Int(sim.LFaultAt, len(data)), len(data)}}
+			p.TransientData = r.T.Bool(sim.LFault)
+		}
 		c07Judge(r, u, p, data, life)
 	}
 }
@@ -678,6 +690,10 @@ func c07Judge(r *eng.Run, u *wsutil.UTF8Reader, p *Pipe, data []byte, life int) 
 				r.Failf("wrong_payload", "UTF8Reader handed out bytes that are not a prefix of the source")
 			}
 			return
+		}
+		if err != nil && errors.Is(err, ErrInjectedNet) && p.Transient != nil {
+			r.Probe("utf8reader_read_on_after_temporary_error")
+			continue
 		}
 		if err != nil {
 			r.Failf("unexpected_error", "UTF8Reader: %v", err)
